@@ -28,7 +28,8 @@ EXPR_CTX = ["return HOLE", "local r = HOLE", "r = HOLE", "f(HOLE)", "f(1, HOLE)"
             "for k, v in HOLE do end", "v += HOLE", "local r = function() return HOLE end",
             "local function g(...) local q = HOLE return q end", "function t.f(a) return HOLE end",
             "local r = if c then HOLE else 0", "local r = if HOLE then 1 else 0", "local r = `x{HOLE}y`",
-            "local r = (HOLE) :: any", "local a, b = HOLE, 2", "local a, b = 1, HOLE", "return 1, HOLE"]
+            "local r = (HOLE) :: any", "local a, b = HOLE, 2", "local a, b = 1, HOLE", "return 1, HOLE", "local q: typeof(HOLE) = 1", "type T = typeof(HOLE)",
+            "local r = function(a: typeof(HOLE)): typeof(HOLE) return a end", "for i: typeof(HOLE) = 1, 2 do end"]
 
 STMT_CTX = ["HOLE", "a() HOLE b()", "do HOLE end", "if c then HOLE end", "if c then a() else HOLE end",
             "if c then elseif d then HOLE end", "while c do HOLE end", "repeat HOLE until c",
